@@ -425,7 +425,9 @@ MODLVL == Fam("mod",
        "define void @f(i32* %p, <2 x i32*> %v, [4 x i32]* %q) {\n  %a = getelementptr i32, i32* %p, <2 x i64> <i64 1, i64 1>\n  %b = getelementptr i32, i32* %p, <2 x i64> poison\n  %c = getelementptr i32, <2 x i32*> %v, <2 x i64> <i64 undef, i64 1>\n  %d = getelementptr i32, i32* %p, i64 add (i64 1, i64 2)\n  %e = getelementptr i32, i32* %p, <2 x i64> <i64 ptrtoint (i32* @g to i64), i64 0>\n  %g = getelementptr [4 x i32], [4 x i32]* %q, i64 0, <2 x i64> <i64 3, i64 3>\n  ret void\n}\n@g = global i32 0\n@h = global <2 x i32*> getelementptr (i32, i32* @g, <2 x i64> <i64 1, i64 1>)\n@i = global <2 x i32*> getelementptr (i32, <2 x i32*> <i32* @g, i32* @g>, <2 x i64> <i64 1, i64 2>)",
        "!0 = !DIFile(filename: \"a\", directory: \"b\")\n!1 = distinct !DICompileUnit(language: DW_LANG_C99, file: !0)\n!2 = !DIGlobalVariableExpression(var: !3, expr: !DIExpression())\n!3 = !DIGlobalVariable(name: \"g\", scope: null, type: !15)\n!4 = !DIImportedEntity(tag: DW_TAG_imported_module, scope: !1, entity: null, file: null, elements: null)\n!5 = distinct !DISubprogram(name: \"f\", unit: !1, spFlags: DISPFlagDefinition)\n!6 = !DILabel(scope: !5, name: \"l\", file: !0, line: 1)\n!7 = distinct !DILexicalBlock(scope: !5, file: null)\n!8 = !DILexicalBlockFile(scope: !5, file: null, discriminator: 0)\n!9 = !{i32 2, !\"Debug Info Version\", i32 3}\n!10 = !DILocation(line: 1, scope: !5, inlinedAt: null)\n!11 = !DIMacroFile(file: !0, nodes: null)\n!12 = !DIObjCProperty(name: \"p\", file: null, type: null)\n!13 = !DISubprogram(name: \"v\", scope: null, virtuality: 1, spFlags: DISPFlagPureVirtual)\n!14 = !DICompositeType(tag: DW_TAG_structure_type, name: \"S\", vtableHolder: !15)\n!15 = !DIBasicType(name: \"int\")\n!16 = !DICommonBlock(scope: !5, declaration: null, name: \"c\", file: null)\n!17 = !DIModule(scope: null, name: \"m\", file: null)\n!18 = !DITemplateTypeParameter(name: \"T\", type: null)\n!19 = !DITemplateValueParameter(name: \"V\", type: null, value: i32 1)\n!20 = !{!DILexicalBlock(scope: !5), !DIGlobalVariable(name: \"h\", type: !15)}\n!21 = !DISubroutineType(types: null)\n!22 = !DIStringType(name: \"s\", stringLength: null, stringLengthExpression: null, stringLocationExpression: null)\n!llvm.dbg.cu = !{!1}\n!llvm.module.flags = !{!9}\n!t = !{!2, !4, !6, !7, !8, !10, !11, !12, !13, !14, !16, !17, !18, !19, !20, !21, !22}",
        "@x = global i32 0\n@y = global i32 0\n@a = alias i32, i32* select (i1 true, i32* @x, i32* @y)\n@b = alias i32, i32* getelementptr (i32, i32* @x, i64 0)",
-       "declare i32 @foo()\ndeclare i32 @bar(i32, ...)\ndefine i32 @c(i32 %x) personality i32 (...)* @pers {\n  %a = call i32 (...) bitcast (i32 ()* @foo to i32 (...)*)()\n  %b = call i32 (...) bitcast (i32 ()* @foo to i32 (...)*)(i32 %x)\n  %c = call i32 (i32, ...) @bar(i32 %x)\n  %d = call i32 (i32, ...) @bar(i32 %x, i32 %a)\n  %e = call i32 (i32, ...) bitcast (i32 ()* @foo to i32 (i32, ...)*)(i32 %b)\n  %f = invoke i32 (...) bitcast (i32 ()* @foo to i32 (...)*)()\n          to label %ok unwind label %lp\nok:\n  ret i32 %f\nlp:\n  %l = landingpad { i8*, i32 }\n          cleanup\n  ret i32 %c\n}\ndeclare i32 @pers(...)"
+       "declare i32 @foo()\ndeclare i32 @bar(i32, ...)\ndefine i32 @c(i32 %x) personality i32 (...)* @pers {\n  %a = call i32 (...) bitcast (i32 ()* @foo to i32 (...)*)()\n  %b = call i32 (...) bitcast (i32 ()* @foo to i32 (...)*)(i32 %x)\n  %c = call i32 (i32, ...) @bar(i32 %x)\n  %d = call i32 (i32, ...) @bar(i32 %x, i32 %a)\n  %e = call i32 (i32, ...) bitcast (i32 ()* @foo to i32 (i32, ...)*)(i32 %b)\n  %f = invoke i32 (...) bitcast (i32 ()* @foo to i32 (...)*)()\n          to label %ok unwind label %lp\nok:\n  ret i32 %f\nlp:\n  %l = landingpad { i8*, i32 }\n          cleanup\n  ret i32 %c\n}\ndeclare i32 @pers(...)",
+       "%v = type <vscale x 4 x i32>\ndefine %v @f(%v %a) {\n  %r = add %v %a, %a\n  ret %v %r\n}",
+       "!0 = !DIBasicType(name: \"x\", size: 32, encoding: 200)\n!1 = !DISubroutineType(cc: 250, types: null)\n!3 = !DIFile(filename: \"a\", directory: \"b\")\n!4 = distinct !DICompileUnit(language: 36000, file: !3)\n!5 = !DICompositeType(tag: DW_TAG_structure_type, name: \"S\", runtimeLang: 999)\n!llvm.dbg.cu = !{!4}\n!t = !{!0, !1, !5}\n!llvm.module.flags = !{!9}\n!9 = !{i32 2, !\"Debug Info Version\", i32 3}"
      >>) >>,
   {}, FALSE)
 
